@@ -177,9 +177,10 @@ def explore_config(prop, cfg, judge, invariant=None, max_executions=300000, prun
                 outcomes.add(repr([np.asarray(v).tolist() for v in (value if isinstance(value, tuple) else (value,))]))
             except Exception:
                 pass
-        if not bad and len(t.samples) < 1 and len(trace) >= 3:
-            t.sample({'fn': cfg['fn'], 'graph': cfg['tag'], 'params': cfg.get('params'), 'answers': list(trace)[:40]},
-                     order=hash(cfg['tag']) % 1000)
+        if not bad and len(t.samples) < 1 and len(trace) >= 6 and status == 'ok':
+            t.sample({'fn': cfg['fn'], 'graph': cfg['tag'], 'W': cfg['W'], 'params': {k: v for k, v in cfg.get('params', {}).items() if k not in ('B', 'D')},
+                      'answers': list(trace)[:40], 'returned': value[0] if isinstance(value, tuple) else value},
+                     order=-len(trace) * 1000 + hash(cfg['tag']) % 1000)
         return bad
 
     inv = None
